@@ -569,12 +569,39 @@ fn run_dict(v: &[u64]) {
 
 // more than 1024 distinct strings, to cross the heavy-hitter summary's compaction
 fn pre_many(v: &[u64]) -> bool {
-    v[0] < 4 && v[1] < 3 && v[2] < 3 && v[3] < 4
+    v[0] < 4 && v[1] < 3 && v[2] < 3 && v[3] < 5
 }
 fn doms_many() -> Vec<Vec<u64>> {
-    vec![range(4), range(3), range(3), range(4)]
+    vec![range(4), range(3), range(3), range(5)]
 }
 fn run_many(v: &[u64]) {
+    if v[3] == 4 {
+        // the least frequent string of one source is the most frequent one of the next (in either order)
+        let n = [260usize, 300, 300, 400][v[0] as usize];
+        let hot: &[u8] = [&b"hot!"[..], &b"\xffhot"[..], &b"\x01hot"[..]][v[2] as usize];
+        let mut a = CR::default();
+        let mut b = CR::default();
+        let (mut ia, mut ib) = (Vec::new(), Vec::new());
+        for i in 0..n {
+            let x = vec![b'k', (i % 251) as u8, (i / 251) as u8];
+            for _ in 0..3 {
+                vassert!(push_checked(&mut a, &x, &mut ia), "VF:dictionary.untrained_refused_nonempty");
+            }
+        }
+        vassert!(push_checked(&mut a, hot, &mut ia), "VF:dictionary.untrained_refused_nonempty");
+        for _ in 0..(400 + 100 * v[1] as usize) {
+            vassert!(push_checked(&mut b, hot, &mut ib), "VF:dictionary.untrained_refused_nonempty");
+        }
+        for order in 0..2 {
+            let mut m = if order == 0 { CR::merge_regions([&a, &b].into_iter()) } else { CR::merge_regions([&b, &a].into_iter()) };
+            let mut issued = Vec::new();
+            let before = used_bytes(&m);
+            if push_checked(&mut m, hot, &mut issued) {
+                vassert!(used_bytes(&m) - before == 1, "VF:dictionary.heavy_hitter_not_one_byte");
+            }
+        }
+        return;
+    }
     if v[3] == 3 {
         // three generations with more distinct values than tags: whatever a source region stored (as a literal or as a
         // dictionary hit) is covered by the statistics and must be accepted by the next generation and read back exactly
@@ -927,6 +954,25 @@ fn run_hclone(v: &[u64]) {
     vassert!(c.index(b).into_owned() == it, "VF:clone.huffman.not_independent");
     c.clear();
     vassert!(src.index(a).into_owned() == it, "VF:clone.huffman.not_independent");
+    // a structural region over the container: clone_from into fresh, shorter and longer destinations
+    crate::section("VF:clone.huffman.slice");
+    type SH = flatcontainer::SliceRegion<HuffmanContainer<u16>>;
+    let rows: [Vec<Vec<u16>>; 3] = [vec![it.clone(), vec![alpha[0]]], vec![vec![]], vec![vec![alpha[0]; 3], it.clone(), vec![]]];
+    let mut s1 = SH::default();
+    let idx: Vec<_> = rows.iter().map(|r| s1.push(r)).collect();
+    for d in 0..4usize {
+        let mut dest = SH::default();
+        for k in 0..d * 2 {
+            let _ = dest.push(&rows[k % 3]);
+        }
+        dest.clone_from(&s1);
+        let twin = s1.clone();
+        for (i, r) in idx.iter().zip(rows.iter()) {
+            let got: Vec<Vec<u16>> = dest.index(*i).iter().map(|w| w.into_owned()).collect();
+            let want: Vec<Vec<u16>> = twin.index(*i).iter().map(|w| w.into_owned()).collect();
+            vassert!(&got == r && &want == r, "VF:clone.huffman.slice.reads");
+        }
+    }
 }
 
 // C01 / C10: composite regions (tuple, result) over coded fields built by merge_regions
@@ -1201,18 +1247,18 @@ pub fn harnesses() -> Vec<H> {
         H { name: "huffman_after_clear", props: &["C06", "C08"], nargs: 2, pre: pre_hclear, doms: doms_hclear, run: run_hclear, panic_ok: false,
             bound: "HuffmanContainer<u16>: 50 occurrences of a foreign symbol pushed into a raw or coded container, clear, then exactly one of 7 profiles, merge: code cost equals the reference for that profile alone and the foreign symbol is refused", kani: false },
         H { name: "codec_clone", props: &["C09"], nargs: 4, pre: pre_hclone, doms: doms_hclone, run: run_hclone, panic_ok: false,
-            bound: "HuffmanContainer<u16>: 8 profiles x source state (raw empty / raw with items / coded without pushes / coded with items) x clone or clone_from into a raw destination, a coded destination with a foreign code book, or a coded destination whose book has the same shape but the reversed frequency ranking, each holding items; identical further push, independence", kani: false },
+            bound: "HuffmanContainer<u16>: 8 profiles x source state (raw empty / raw with items / coded without pushes / coded with items) x clone or clone_from into a raw destination, a coded destination with a foreign code book, or a coded destination whose book has the same shape but the reversed frequency ranking, each holding items; identical further push, independence; SliceRegion<HuffmanContainer> cloned / clone_from'd into destinations holding 0, 2, 4, 6 items", kani: false },
         H { name: "coded_composites_merge", props: &["C10", "C01", "C08"], nargs: 2, pre: pre_ccomp, doms: doms_ccomp, run: run_ccomp, panic_ok: false,
             bound: "TupleABRegion<HuffmanContainer<u8>, CodecRegion<DictionaryCodec>> and ResultRegion<..>: merge_regions over 1 or 2 source regions, then rows covered by the passed sources' statistics must be accepted and read back; clear of a populated / merged composite, then rows with unseen symbols and tag-like literals compared with a default twin", kani: false },
         H { name: "huffman_wrapped", props: &["C14", "C15"], nargs: 4, pre: pre_wrapped, doms: doms_wrapped, run: run_wrapped, panic_ok: false,
             bound: "Wrapped items, raw versus Huffman-encoded under two different code books, 9 profiles (incl. Fibonacci-skewed ones with 10 and 16 symbols: codes longer than a byte) x all pairs of 12 item shapes x 4 clone_onto targets: ==, partial_cmp, cmp against the owned vectors; into_owned / clone_onto / borrow_as; region-to-region push", kani: false },
-        H { name: "huffman_forms", props: &["C20", "C10"], nargs: 2, pre: pre_hforms, doms: doms_hforms, run: run_hforms, panic_ok: false,
+        H { name: "huffman_forms", props: &["C20", "C10", "C06"], nargs: 2, pre: pre_hforms, doms: doms_hforms, run: run_hforms, panic_ok: false,
             bound: "HuffmanContainer<u16> raw and coded, 4 profiles: [B;N], &[B;N], Vec<B>, &Vec<B>, raw and encoded read items of another container versus &[B] on twins in the same state (indices, reads), and the next generation merged from each twin (index and read of a probe)", kani: false },
         H { name: "dictionary_quick", props: &["C07", "C01", "C02", "C04", "C08", "C10"], nargs: 7, pre: pre_dict, doms: doms_dict_quick, run: run_dict, panic_ok: false,
             bound: "CodecRegion<DictionaryCodec>: 8 x 2 training sets over 1..2 source regions; 20 probes (empty, dictionary entries, prefixes/extensions, first byte an assigned tag, eight one-byte strings) x 3; second merge generation; reserve_regions on the merged region and on a source (twice), earlier reads unchanged and a further push like on a twin; clear; every push refused or read back exactly, heavy hitters cost 1 byte", kani: false },
         H { name: "dictionary_full", props: &["C07"], nargs: 7, pre: pre_dict, doms: doms_dict, run: run_dict, panic_ok: false,
             bound: "CodecRegion<DictionaryCodec>: 8 x 3 training sets over 1..2 source regions; probes: all 256 one-byte strings, dictionary entries, their prefixes/extensions, strings whose first byte is an assigned tag, the empty string (268 probes x 5); second merge generation; clear; every push refused or read back exactly, heavy hitters cost 1 byte", kani: false },
         H { name: "dictionary_many", props: &["C07", "C01", "C10"], nargs: 4, pre: pre_many, doms: doms_many, run: run_many, panic_ok: false,
-            bound: "1023 / 1024 / 1500 / 2600 distinct strings plus a heavy hitter at 1/2, 1/3, 1/4 of the pushes that sorts before / between / after them (crosses MisraGries::tidy), one or two source regions, merged, then probed; and 3-4 source regions with 257/260/300 private strings (x3) each plus a shared string (x2) that dominates only their union; three generations with 260-400 distinct values plus one value that is a dictionary hit in the second generation and has no tag in the third: everything a source stored is accepted and read back", kani: false },
+            bound: "1023 / 1024 / 1500 / 2600 distinct strings plus a heavy hitter at 1/2, 1/3, 1/4 of the pushes that sorts before / between / after them (crosses MisraGries::tidy), one or two source regions, merged, then probed; and 3-4 source regions with 257/260/300 private strings (x3) each plus a shared string (x2) that dominates only their union; three generations with 260-400 distinct values plus one value that is a dictionary hit in the second generation and has no tag in the third: everything a source stored is accepted and read back; two sources where the rarest string of one is the dominant string of the other, merged in both orders", kani: false },
     ]
 }
